@@ -238,7 +238,7 @@ pub fn default_runs(check: &str, tier: Tier) -> u64 {
         "C06" => (1500, 30_000),
         "C11" => (3000, 60_000),
         "C12" => (3000, 40_000),
-        "C05" => (4000, 200_000),
+        "C05" => (16_000, 300_000),
         "C18" => (1500, 40_000),
         "C10" => (400_000, 8_000_000),
         "C16" => (200_000, 4_000_000),
